@@ -12,14 +12,18 @@ from ..views import sig_str
 
 LIB_AXIOMS = [
     "IEEE-754 float64 arithmetic treated as real arithmetic where every intermediate is finite (rounding not analysed)",
-    "numpy functions reached through `lib` satisfy: Pythagorean identity, angle addition/half-angle formulas; arctan2/arccos/arctan "
-    "characterised by (cos, sin, window); injectivity of an angle within a window of length <= 2 pi; exp/log inverse, log of products, "
-    "hyperbolic functions and arcsinh via exp/log; x % m in [0, m) for m > 0; nan_to_num is the identity on finite values",
-    "a/tan(A) is read as a*cos(A)/sin(A); float literals denote the simple rationals they round",
+    "numpy functions reached through `lib` denote the real functions of the same name (arctan2(y, x) = arg(x + iy); x % m = x - m floor(x/m) for m > 0; "
+    "nan_to_num is the identity on finite values).  The analytic facts the engine uses about them - Pythagorean identity, angle addition / half-angle formulas; "
+    "arctan2 / arccos / arcsin / arctan characterised by (cos, sin, window); injectivity of an angle within a window of length <= 2 pi; exp/log inverse, log of products, "
+    "hyperbolic functions, arcsinh and arctanh via exp/log; the cot(theta) parametrisation of theta in (0, pi) and eta = -log tan(theta/2); x % m in [0, m); sqrt / cbrt; "
+    "abs / max / min case splits; Cauchy-Schwarz - are no longer axioms: they are the 37 theorems of lean/Axioms.lean, proved from Mathlib and re-compiled by the thorough "
+    "tier (coverage.library_axioms); assumed is only that the engine's rewrite rules instantiate those theorems faithfully (cross-checked numerically on every run)",
+    "a/tan(A) is read as a*cos(A)/sin(A) also where cos(A) = 0 (projective reading; lean/Axioms.lean::cot_reading covers cos(A) != 0); float literals denote the simple rationals they round",
     "z3 (QF_NRA) and cvc5 are sound for `unsat`; the generator's normal forms, slicing and tactics are sound (cross-checked numerically "
     "against the real functions at seeded points on every run)",
     "CPython executes the compute functions as written; the symbolic number type cannot be inspected by the code without raising",
-    "angle equality is decided through (cos, sin) within a common window of length 2 pi: the two ends of a closed window are identified",
+    "angle equality is decided through (cos, sin) within a common window of length 2 pi: the two ends of a closed window are identified "
+    "(lean/Axioms.lean::angle_closed_window shows these are the only exception)",
 ]
 
 
@@ -114,6 +118,20 @@ def run(prop, jobs, design_ref, extra_assumptions=(), functions_note="", extra_r
                      f"{cnt['known']} fail and are listed as open known findings (not counted in `obligations`), {cnt['undecided']} undecided (not counted as proved), {cnt['violations']} violations. {functions_note}"),
         exhaustive=False,
     )
+    from .. import leancheck
+    try:
+        if C.tier() == "thorough":
+            la = leancheck.run()
+            if la.get("checked") and not la.get("ok"):
+                report.error(f"lean/Axioms.lean did not check: {str(la.get('problem'))[-300:]}")
+            la.pop("names", None)
+        else:
+            la = leancheck.census()
+            la.pop("names", None)
+            la.update(checked=False, note="compiled by the thorough tier (lake env lean lean/Axioms.lean, ~12 s); the quick tier records the digest and the theorem census only")
+    except Exception as e:
+        la = dict(checked=False, problem=f"{type(e).__name__}: {e}")
+    coverage["library_axioms"] = la
     if post:
         post(report, results, coverage)
         if coverage["discharged"] != coverage["obligations"] or report.errors:
